@@ -229,3 +229,131 @@ def run_script(f, nworkers, inputs, script, extra=0, retry=True, return_results=
 
 class Livelock(BaseException):
     pass
+
+
+# ---------------------------------------------------------------- several runs of one pool (C09)
+class RestartRefused(RuntimeError):
+    pass
+
+
+def _fake_restart(self, *args, results_pipe=None, timeout=None, **kwargs):
+    """PersistentWorker.restart as the pool sees it: the old incarnation is stopped, the object comes
+    back under a new id with a fresh results pipe - or RuntimeError if the old one cannot be stopped."""
+    if getattr(self, 'refuse_restart', False):
+        raise RestartRefused('Could not stop a worker!')
+    self.exit()
+    FakeWorker.generation += 1
+    g = FakeWorker.generation
+    self._id = ('fakehost', 2000 + g, 2000 + g)
+    self.pipe = results_pipe if results_pipe is not None else Pipe()
+    self.inbox = []
+    self.alive = True
+    self.ended = False
+    self.counter = 0
+    self.restarts = getattr(self, 'restarts', 0) + 1
+
+
+FakeWorker.generation = 0
+FakeWorker.restart = _fake_restart
+
+
+def run_rounds(f, nworkers, rounds, extra=0, retry=True, return_results=True):
+    """rounds: list of (between, inputs, script); between: list of ('exit', i) | ('restart_all',) | ('restart_fail', k);
+    script as for run_script but without ('start',).  Worker indices always refer to the position in the
+    pool's registry at that moment.  Returns (list of outcomes, details)."""
+    p = ScriptedPool(f, nworkers, retry=retry)
+    orig_wait = mp.connection.wait
+    orig_sleep = pool_mod.time.sleep
+    picks = []
+    ready_log = []
+    import types
+    import signal
+
+    def renumber():
+        p.fakes = list(p._workers.values())
+        for k, w in enumerate(p.fakes):
+            w.idx = k
+            w.log = picks
+
+    def wait(conns, timeout=None):
+        conns = list(conns)
+        ready = orig_wait(conns, 0) if conns else []
+        if not ready:
+            raise Blocked()
+        idx_of = {id(q): p._workers[wid].idx for wid, q in p._queues.items()}
+        ready_log[-1].append([idx_of[id(c)] for c in ready])
+        return ready
+
+    def on_alarm(signum, frame):
+        raise Livelock()
+
+    orig_mp = pool_mod.mp
+    pool_mod.mp = types.SimpleNamespace(connection=types.SimpleNamespace(wait=wait))
+    pool_mod.time.sleep = lambda _: None
+    old_handler = signal.signal(signal.SIGALRM, on_alarm)
+    outs, between_results, got_per_round, alive_at_start = [], [], [], []
+    all_fakes = list(p.fakes)
+    try:
+        for between, inputs, script in rounds:
+            renumber()
+            bres = []
+            for b in between:
+                if b[0] == 'exit':
+                    p.fakes[b[1]].exit()
+                elif b[0] == 'restart_all':
+                    try:
+                        p.restart_workers(timeout=0.05)
+                        bres.append('ok')
+                    except Exception as e:   # noqa
+                        bres.append(type(e).__name__)
+                    renumber()
+                elif b[0] == 'restart_fail':
+                    p.fakes[b[1]].refuse_restart = True
+                    try:
+                        p.restart_workers(timeout=0.05)
+                        bres.append('ok')
+                    except RestartRefused:
+                        bres.append('refused')
+                    except Exception as e:   # noqa
+                        bres.append(type(e).__name__)
+                    for w in p.fakes:
+                        w.refuse_restart = False
+                    renumber()
+            between_results.append(bres)
+            for w in p.fakes:
+                w.got, w.attempted = [], []
+            alive_at_start.append([w.alive for w in p.fakes])
+            p.script = list(script)
+            ready_log.append([])
+            signal.setitimer(signal.ITIMER_REAL, 1.0)
+            try:
+                r = p.run(iter(inputs), worker_extra_pending_inputs=extra, return_results=return_results)
+                out = ('none',) if r is None and return_results else ('return', r)
+            except pool_mod.PoolError as e:
+                out = ('poolerr', e.partial_results)
+            except Blocked:
+                out = ('blocked',)
+            except Livelock:
+                out = ('livelock',)
+            except Exception as e:   # noqa
+                out = ('internal', type(e).__name__)
+            finally:
+                signal.setitimer(signal.ITIMER_REAL, 0)
+            outs.append(out)
+            got_per_round.append(dict(got=[list(w.got) for w in p.fakes], attempted=[list(w.attempted) for w in p.fakes],
+                                      alive=[w.alive for w in p.fakes], restarts=[getattr(w, 'restarts', 0) for w in p.fakes]))
+            if out[0] in ('blocked', 'livelock', 'internal'):
+                break
+    finally:
+        signal.signal(signal.SIGALRM, old_handler)
+        pool_mod.mp = orig_mp
+        pool_mod.time.sleep = orig_sleep
+    details = dict(picks=picks, ready=ready_log, between=between_results, per_round=got_per_round, alive_at_start=alive_at_start,
+                   map_guard=p._map_guard)
+    for w in all_fakes:
+        for end in ('child_end', 'parent_end'):
+            try:
+                getattr(w.pipe, end).close()
+            except Exception:
+                pass
+    return outs, details
